@@ -55,7 +55,20 @@ inductive Proc where
   | before (t : Text)
   | after (t : Text)
   | password (c : Char)
-deriving Repr
+  /-- ShowLeadingWhiteSpaceProcessor(get_char = c) -/
+  | leading (c : Char)
+  /-- ShowTrailingWhiteSpaceProcessor(get_char = c), applied to the single fragment of the lexer -/
+  | trailing (c : Char)
+  /-- a processor that only restyles: DummyProcessor, HighlightMatchingBracketProcessor, and
+      HighlightSearch / HighlightSelection / DisplayMultipleCursors without search text / selection -/
+  | ident
+  /-- ConditionalProcessor(p, filter) with `filter() = b` ; DynamicProcessor(lambda: p if b else None) -/
+  | cond (b : Bool) (p : Proc)
+  /-- a nested `merge_processors([...])` (`_MergedProcessor`) -/
+  | group (ps : List Proc)
+
+/-- `c == " "` -/
+def isSp (c : Char) : Bool := c = ' '
 
 /-- number of cells a tab at display position `pos` expands to -/
 def tabCount (ts pos : Nat) : Nat :=
@@ -106,29 +119,46 @@ structure Trans where
   s2d : Nat → Option Nat
   d2s : Int → Int
 
-def applyProc (lineno lineCount : Nat) (p : Proc) (t : Text) : Trans :=
-  match p with
-  | .tabs ts c1 c2 =>
+/-- a processor that returns `Transformation(fragments)` : default identity maps -/
+def idTrans (t : Text) : Trans := { frags := t, s2d := some, d2s := id }
+
+/-- ShowLeadingWhiteSpaceProcessor: `for i in range(len(fragments)): if fragments[i][1] == " ": fragments[i] = t else: break` -/
+def leadingOut (c : Char) (t : Text) : Text :=
+  (t.takeWhile isSp).map (fun _ => c) ++ t.dropWhile isSp
+
+/-- ShowTrailingWhiteSpaceProcessor: the same walking backwards -/
+def trailingOut (c : Char) (t : Text) : Text :=
+  (leadingOut c t.reverse).reverse
+
+mutual
+/-- `Processor.apply_transformation` for each modelled processor -/
+def applyProc (lineno lineCount : Nat) : Proc → Text → Trans
+  | .tabs ts c1 c2, t =>
     let pm := tabsMap ts t
     { frags := tabsOut ts c1 c2 t 0, s2d := fun i => pm[i]?, d2s := tabsD2S pm }
-  | .before b =>
+  | .before b, t =>
     if lineno = 0 then
       { frags := b ++ t, s2d := fun i => some (i + b.length), d2s := fun j => j - b.length }
-    else { frags := t, s2d := some, d2s := id }
-  | .after a =>
-    if lineno + 1 = lineCount then { frags := t ++ a, s2d := some, d2s := id }
-    else { frags := t, s2d := some, d2s := id }
-  | .password c => { frags := t.map fun _ => c, s2d := some, d2s := id }
+    else idTrans t
+  | .after a, t =>
+    if lineno + 1 = lineCount then idTrans (t ++ a) else idTrans t
+  | .password c, t => idTrans (t.map fun _ => c)
+  | .leading c, t => idTrans (leadingOut c t)
+  | .trailing c, t => idTrans (trailingOut c t)
+  | .ident, t => idTrans t
+  | .cond b p, t => if b then applyProc lineno lineCount p t else idTrans t
+  | .group ps, t => merged lineno lineCount ps t
 
 /-- `_MergedProcessor.apply_transformation` : processors applied in order, `source_to_display`
-    composed in order, `display_to_source` composed in reverse order.  (The default highlighting
-    processors of `BufferControl` keep the text and use identity maps; they are omitted.) -/
+    composed in order, `display_to_source` composed in reverse order.  (`merge_processors([])` is a
+    DummyProcessor, `merge_processors([p])` is `p` itself: the same function.) -/
 def merged (lineno lineCount : Nat) : List Proc → Text → Trans
-  | [], t => { frags := t, s2d := some, d2s := id }
+  | [], t => idTrans t
   | p :: ps, t =>
     let a := applyProc lineno lineCount p t
     let r := merged lineno lineCount ps a.frags
     { frags := r.frags, s2d := fun i => (a.s2d i).bind r.s2d, d2s := fun j => a.d2s (r.d2s j) }
+end
 
 /-! ## document → UIContent -/
 
@@ -451,5 +481,89 @@ def render (W : Widths) (c : Cfg) (totalWidth height : Nat) (wrap : Bool) (text 
     let s' := scrollFor W c lines width height wrap cy cx s
     some { scroll := s', cy := cy, cx := cx, width := width, xoff := c.xpos + mw,
            st := copyBody (envFor W c width height wrap mw) lines s' }
+
+/-! ## `get_vertical_scroll` / `get_horizontal_scroll` callbacks -/
+
+/-- `_scroll_without_linewrapping`: "When a preferred scroll is given, take that first into account":
+    the callbacks overwrite `vertical_scroll` / `horizontal_scroll` BEFORE `do_scroll` runs; the
+    wrapping scroll code never calls them -/
+def applyCallbacks (wrap : Bool) (cbV cbH : Option Int) (s : Scroll) : Scroll :=
+  if wrap then s else { s with vs := cbV.getD s.vs, hs := cbH.getD s.hs }
+
+/-- a render of a window that has `get_vertical_scroll` / `get_horizontal_scroll` callbacks -/
+def renderCb (W : Widths) (c : Cfg) (totalWidth height : Nat) (wrap : Bool) (text : Text) (cur : Nat)
+    (cbV cbH : Option Int) (s : Scroll) : Option Rendered :=
+  render W c totalWidth height wrap text cur (applyCallbacks wrap cbV cbH s)
+
+/-! ## mouse: the handler `_write_to_screen_at_index` installs, `BufferControl.mouse_handler` -/
+
+/-- `yx_to_rowcol = {v: k for k, v in rowcol_to_yx.items()}` ; `yx_to_rowcol[y, x]` : the key that was
+    inserted LAST with that screen position (`rc` is newest first) -/
+def yxLookup (st : CS) (p : Int × Int) : Option (Nat × Nat) :=
+  (st.rc.find? (fun e => e.2 == p)).map (·.1)
+
+/-- `while x >= 0: try: row, col = yx_to_rowcol[y, x] except KeyError: x -= 1` ; nobreak: `(0, 0)` -/
+def clickLoop (st : CS) (y : Int) : Nat → Nat × Nat
+  | 0 => (yxLookup st (y, 0)).getD (0, 0)
+  | x + 1 => match yxLookup st (y, ((x + 1 : Nat) : Int)) with
+    | some rc => rc
+    | none => clickLoop st y x
+
+/-- the `(row, col)` the window's mouse handler passes on for a mouse event at absolute `(y, x)` ;
+    `max_y = write_position.ypos + len(visible_line_to_row_col) - 1` -/
+def windowClick (st : CS) (ypos : Int) (y x : Int) : Nat × Nat :=
+  let y := min (ypos + (st.vl.length : Int) - 1) y
+  if x < 0 then (0, 0) else clickLoop st y x.toNat
+
+/-- `Document.translate_row_col_to_index(row, col)` (`row ≥ 0`) -/
+def rowColToIndex (text : Text) (row : Nat) (col : Int) : Nat :=
+  let ls := splitOn '\n' text
+  let row' := if row < ls.length then row else ls.length - 1
+  let start : Nat := ((ls.take row').map fun (l : Text) => l.length + 1).sum
+  let line := ls.getD row' []
+  let r : Int := (start : Int) + max 0 (min col (line.length : Int))
+  (max 0 (min r (text.length : Int))).toNat
+
+/-- `BufferControl.mouse_handler`, MOUSE_DOWN on the focused control: the new cursor index -/
+def bufferClick (procs : List Proc) (text : Text) (row col : Nat) : Nat :=
+  let ls := splitOn '\n' text
+  rowColToIndex text row ((merged row ls.length procs (ls.getD row [])).d2s (col : Int))
+
+/-- `mouse_handlers.set_mouse_handler_for_range(x_min, x_max, ...)` : the columns `[x_min, x_max)` the
+    handler is installed for.  The code subtracts the LEFT margin widths from the right edge as well
+    (`x_max = xpos + width - total_margin_width`); `fixed` = proposed fix C11-mouse-region
+    (`- sum(right_margin_widths)`; no right margins are modelled). -/
+def mouseXRange (fixed : Bool) (xpos : Int) (totalWidth mw : Nat) : Int × Int :=
+  (xpos + mw, xpos + totalWidth - (if fixed then 0 else (mw : Int)))
+
+/-! ## NumberedMargin.create_margin (not relative, no tildes) as `_copy_margin` draws it -/
+
+def insertSorted (a : Nat) : List Nat → List Nat
+  | [] => [a]
+  | b :: bs => if a ≤ b then a :: b :: bs else b :: insertSorted a bs
+
+/-- `sorted(...)` -/
+def isort : List Nat → List Nat
+  | [] => []
+  | a :: as => insertSorted a (isort as)
+
+/-- `WindowRenderInfo.displayed_lines` : `sorted(row for row, col in visible_line_to_row_col.values())` -/
+def displayedLines (st : CS) : List Nat := isort (st.vl.reverse.map fun e => e.2.1)
+
+/-- `("%i " % (lineno + 1)).rjust(width)` -/
+def numberText (width lineno : Nat) : Text :=
+  let t := (toString (lineno + 1)).toList ++ [' ']
+  List.replicate (width - t.length) ' ' ++ t
+
+/-- the text `NumberedMargin.create_margin` produces for margin row `k` (`last_lineno` starts as None) -/
+def marginLine (width : Nat) (dl : List Nat) (k : Nat) : Text :=
+  match dl[k]? with
+  | none => []
+  | some n => if k = 0 ∨ dl[k - 1]? ≠ some n then numberText width n else []
+
+/-- what the `width` cells of margin row `k` show after `_copy_margin` (untouched cells are blank) -/
+def marginCells (width : Nat) (dl : List Nat) (k : Nat) : Text :=
+  let t := marginLine width dl k
+  t ++ List.replicate (width - t.length) ' '
 
 end Ptk.C11
